@@ -1080,6 +1080,36 @@ fn run_consolidate(rng: &mut Rng_, ids: &mut Ids, out: &mut Out, n: usize) {
             // distinct modification times give a defined order
             std::thread::sleep(Duration::from_millis(3));
         }
+        // a session directory is not always tidy: leftovers of interrupted shard writes, foreign files, a
+        // sub-directory.  Several of them, under names that sort and hash differently, so that whatever order the
+        // file system lists a directory in, some come before a shard.  None of them is a shard: nothing changes.
+        let mut strays = 0;
+        if i % 2 == 1 {
+            let h = |b: u8| format!("{:02x}", b).repeat(32);
+            let mut stray_names: Vec<String> = vec![
+                ".0d1f3c5a-7b9e-4c2d-8f6a-1b3c5d7e9f00.mdb_temp".into(),
+                ".zz-interrupted.mdb_temp".into(),
+                "notes.txt".into(),
+                "0".into(),
+                "~backup".into(),
+                format!("{}.mdb.bak", h(0x11)),
+                format!("{}.tmp", h(0xee)),
+                format!("{}.mdb", &h(0x77)[..40]),
+            ];
+            for q in 0..rng.gen_range(0..6usize) {
+                stray_names.push(format!("{}{:x}", ["x", ".y", "Z", "_"][q % 4], rng.gen::<u64>()));
+            }
+            for sname in &stray_names {
+                let l = rng.gen_range(0..200usize);
+                let mut b = vec![0u8; l];
+                rng.fill(&mut b[..]);
+                std::fs::write(dir.path().join(sname), &b).unwrap();
+                strays += 1;
+            }
+            std::fs::create_dir(dir.path().join("subdir")).unwrap();
+            std::fs::write(dir.path().join("subdir").join(format!("{}.mdb", h(0x33))), b"not looked at").unwrap();
+            strays += 1;
+        }
         let total: u64 = sizes.iter().sum();
         let threshold = match i % 4 {
             0 => 1,
@@ -1108,7 +1138,7 @@ fn run_consolidate(rng: &mut Rng_, ids: &mut Ids, out: &mut Out, n: usize) {
                         None => others += 1,
                     }
                 }
-                out.ev("ShConsolidate", json!({"before": before, "sizes": sizes, "threshold": threshold, "returned": returned, "remaining": remaining, "other_files": others}));
+                out.ev("ShConsolidate", json!({"before": before, "sizes": sizes, "threshold": threshold, "returned": returned, "remaining": remaining, "other_files": others, "strays": strays}));
             },
             Ok(Err(e)) => out.ev("ShError", json!({"what": format!("consolidate: {e:?}")})),
             Err(p) => out.ev("ShPanic", json!({"what": format!("consolidate: {p}")})),
